@@ -58,8 +58,10 @@ EP = Endpoint(ipaddress.ip_address("192.0.2.1"), 161)
 
 
 def reply_bytes(i):
-    # leading/trailing whitespace and NULs: "unmodified" means byte for byte
-    return b" \n\x00reply-%d-" % i + bytes(range(200, 232)) + b"\x00 \t\r\n"
+    # leading/trailing whitespace and NULs: "unmodified" means byte for byte; odd
+    # attempts answer with a LONG datagram (a few kB), even ones with a short one
+    body = bytes(range(200, 232)) * (90 if i % 2 else 1)
+    return b" \n\x00reply-%d-" % i + body + b"\x00 \t\r\n"
 
 
 def make_script_factory(seq, timeout):
